@@ -12,9 +12,11 @@ import (
 	"fmt"
 	"math"
 	"net/netip"
+	"runtime"
 	"sort"
 	"strings"
 	"sync"
+	"sync/atomic"
 	"testing"
 
 	"github.com/libp2p/go-libp2p/core/network"
@@ -164,7 +166,9 @@ func (c *c03Cfg) limiter() Limiter {
 	return &fixedLimiter{cc}
 }
 
-func (c *c03Cfg) manager(t testing.TB) *resourceManager {
+func (c *c03Cfg) manager(t testing.TB) *resourceManager { return c.managerWith(t, c.limiter()) }
+
+func (c *c03Cfg) managerWith(t testing.TB, lim Limiter) *resourceManager {
 	var mas []ma.Multiaddr
 	for _, a := range c.allow {
 		fam := "ip4"
@@ -193,7 +197,7 @@ func (c *c03Cfg) manager(t testing.TB) *resourceManager {
 	for _, p := range c.pre6 {
 		pre6 = append(pre6, NetworkPrefixLimit{Network: p.p.prefix(), ConnCount: p.cap})
 	}
-	rm, err := NewResourceManager(c.limiter(),
+	rm, err := NewResourceManager(lim,
 		WithMetricsDisabled(),
 		WithConnRateLimiters(&rate.Limiter{}), // rate limiting is not part of C03
 		WithAllowlistedMultiaddrs(mas),
@@ -1881,6 +1885,675 @@ func c03Concurrent(t testing.TB, out *verifh.Out, rd *verifh.Rand, workers, step
 	out.Case(line)
 }
 
+// ---- case kind 5: concurrent run with MID-FLIGHT samples (Conc.v) ----------------------------
+//
+// Operations run in real goroutines against the real manager while a sampler goroutine reads
+// Stat() of the shared scopes.  Every Limit getter yields the processor (c5Limit), i.e. INSIDE
+// the critical section of the scope whose limit is being checked, so that goroutines really
+// interleave at the granularity of the single-lock sections of scope.go.
+// Each worker owns its connections / streams and keeps, from the answers it gets, what each of
+// them holds (own vector, edge list).  Around every operation it bumps its sequence counter
+// (2p+1 before operation p, 2p+2 after); the sampler reads all counters before and after the
+// Stat().  After the run, for every sample and worker the window [a, b] of operations that can
+// overlap the Stat() gives
+//   lo = componentwise min over p in [a..b] of S_p(scope)
+//   hi = componentwise max over p in [a..b] of S_p(scope), and of S_p(scope)+T_p(scope) for p in [a..b)
+// where S_p = what the worker's holders have committed to the scope before operation p and T_p =
+// what operation p may charge to it transiently (a reservation on every scope it tries).
+
+type c5Vec [6]int64 // mem sin sout cin cout fd
+
+func (a c5Vec) add(b c5Vec) c5Vec {
+	for i := range a {
+		a[i] += b[i]
+	}
+	return a
+}
+func (a c5Vec) neg() c5Vec {
+	for i := range a {
+		a[i] = -a[i]
+	}
+	return a
+}
+func c5Min(a, b c5Vec) c5Vec {
+	for i := range a {
+		if b[i] < a[i] {
+			a[i] = b[i]
+		}
+	}
+	return a
+}
+func c5Max(a, b c5Vec) c5Vec {
+	for i := range a {
+		if b[i] > a[i] {
+			a[i] = b[i]
+		}
+	}
+	return a
+}
+func c5Stat(st network.ScopeStat) c5Vec {
+	return c5Vec{st.Memory, int64(st.NumStreamsInbound), int64(st.NumStreamsOutbound), int64(st.NumConnsInbound), int64(st.NumConnsOutbound), int64(st.NumFD)}
+}
+
+// a Limit whose getters yield: the yield happens while the scope's mutex is held
+type c5Limit struct{ in Limit }
+
+func (l c5Limit) GetMemoryLimit() int64 { runtime.Gosched(); return l.in.GetMemoryLimit() }
+func (l c5Limit) GetStreamLimit(d network.Direction) int {
+	runtime.Gosched()
+	return l.in.GetStreamLimit(d)
+}
+func (l c5Limit) GetStreamTotalLimit() int { return l.in.GetStreamTotalLimit() }
+func (l c5Limit) GetConnLimit(d network.Direction) int {
+	runtime.Gosched()
+	return l.in.GetConnLimit(d)
+}
+func (l c5Limit) GetConnTotalLimit() int { return l.in.GetConnTotalLimit() }
+func (l c5Limit) GetFDLimit() int        { return l.in.GetFDLimit() }
+
+type c5Limiter struct{ in Limiter }
+
+func (l c5Limiter) GetSystemLimits() Limit    { return c5Limit{l.in.GetSystemLimits()} }
+func (l c5Limiter) GetTransientLimits() Limit { return c5Limit{l.in.GetTransientLimits()} }
+func (l c5Limiter) GetAllowlistedSystemLimits() Limit {
+	return c5Limit{l.in.GetAllowlistedSystemLimits()}
+}
+func (l c5Limiter) GetAllowlistedTransientLimits() Limit {
+	return c5Limit{l.in.GetAllowlistedTransientLimits()}
+}
+func (l c5Limiter) GetServiceLimits(s string) Limit       { return c5Limit{l.in.GetServiceLimits(s)} }
+func (l c5Limiter) GetServicePeerLimits(s string) Limit   { return c5Limit{l.in.GetServicePeerLimits(s)} }
+func (l c5Limiter) GetProtocolLimits(p protocol.ID) Limit { return c5Limit{l.in.GetProtocolLimits(p)} }
+func (l c5Limiter) GetProtocolPeerLimits(p protocol.ID) Limit {
+	return c5Limit{l.in.GetProtocolPeerLimits(p)}
+}
+func (l c5Limiter) GetPeerLimits(p peer.ID) Limit   { return c5Limit{l.in.GetPeerLimits(p)} }
+func (l c5Limiter) GetStreamLimits(p peer.ID) Limit { return c5Limit{l.in.GetStreamLimits(p)} }
+func (l c5Limiter) GetConnLimits() Limit            { return c5Limit{l.in.GetConnLimits()} }
+
+const (
+	c5NPeers  = 3
+	c5NProtos = 2
+)
+
+// the table of shared scopes: index -> (K, a, limit index of c03Cfg.lims)
+type c5Scope struct {
+	k, a, lim int
+	read      func() network.ScopeStat
+}
+
+func c5IPeer(q int) int  { return 4 + q }
+func c5IProto(p int) int { return 4 + c5NPeers + p }
+func c5ISvc() int        { return 4 + c5NPeers + c5NProtos }
+func c5IPP(p, q int) int { return c5ISvc() + 1 + p*c5NPeers + q }
+func c5ISP(q int) int    { return c5ISvc() + 1 + c5NProtos*c5NPeers + q }
+func c5NScopes() int     { return c5ISvc() + 1 + c5NProtos*c5NPeers + c5NPeers }
+func c5Scopes(rm *resourceManager) []c5Scope {
+	t := make([]c5Scope, c5NScopes())
+	t[0] = c5Scope{0, 0, 0, func() network.ScopeStat { return rm.system.Stat() }}
+	t[1] = c5Scope{1, 0, 1, func() network.ScopeStat { return rm.transient.Stat() }}
+	t[2] = c5Scope{2, 0, 2, func() network.ScopeStat { return rm.allowlistedSystem.Stat() }}
+	t[3] = c5Scope{3, 0, 3, func() network.ScopeStat { return rm.allowlistedTransient.Stat() }}
+	for q := 0; q < c5NPeers; q++ {
+		q := q
+		t[c5IPeer(q)] = c5Scope{6, q, 8, func() (st network.ScopeStat) {
+			rm.ViewPeer(c03PeerID(q), func(s network.PeerScope) error { st = s.Stat(); return nil })
+			return
+		}}
+		t[c5ISP(q)] = c5Scope{7, q, 5, func() network.ScopeStat {
+			sv := rm.getServiceScope(c03Svc(0))
+			sub := sv.getPeerScope(c03PeerID(q))
+			st := sub.Stat()
+			sub.DecRef()
+			sv.DecRef()
+			return st
+		}}
+		for p := 0; p < c5NProtos; p++ {
+			p := p
+			t[c5IPP(p, q)] = c5Scope{8, p*16 + q, 7, func() network.ScopeStat {
+				ps := rm.getProtocolScope(c03Proto(p))
+				sub := ps.getPeerScope(c03PeerID(q))
+				st := sub.Stat()
+				sub.DecRef()
+				ps.DecRef()
+				return st
+			}}
+		}
+	}
+	for p := 0; p < c5NProtos; p++ {
+		p := p
+		t[c5IProto(p)] = c5Scope{5, p, 6, func() (st network.ScopeStat) {
+			rm.ViewProtocol(c03Proto(p), func(s network.ProtocolScope) error { st = s.Stat(); return nil })
+			return
+		}}
+	}
+	t[c5ISvc()] = c5Scope{4, 0, 4, func() (st network.ScopeStat) {
+		rm.ViewService(c03Svc(0), func(s network.ServiceScope) error { st = s.Stat(); return nil })
+		return
+	}}
+	return t
+}
+
+type c5Span struct {
+	sp  network.ResourceScopeSpan
+	mem int64
+}
+
+type c5Holder struct {
+	id       int
+	conn     *connectionScope
+	strm     *streamScope
+	own      c5Vec
+	edges    []int
+	allow    bool // connection admitted through the allow-listed scopes
+	net      int  // 0 ordinary endpoint, 1 allow-listed for every peer, 2 allow-listed for peer 0 only
+	hasPeer  bool
+	peer     int
+	hasProto bool
+	proto    int
+	hasSvc   bool
+	spans    []c5Span
+}
+
+func (h *c5Holder) scope() *resourceScope {
+	if h.conn != nil {
+		return h.conn.resourceScope
+	}
+	return h.strm.resourceScope
+}
+
+// one logged operation: the change of the committed charges and the transient attempt
+type c5Ev struct{ delta, touch map[int]c5Vec }
+
+type c5Worker struct {
+	seq     atomic.Int64
+	log     []c5Ev
+	holders []*c5Holder
+	cur     c5Ev
+}
+
+func (w *c5Worker) begin() {
+	w.cur = c5Ev{delta: map[int]c5Vec{}, touch: map[int]c5Vec{}}
+}
+func (w *c5Worker) attempt(scopes []int, v c5Vec) {
+	for _, s := range scopes {
+		w.cur.touch[s] = w.cur.touch[s].add(v)
+	}
+}
+func (w *c5Worker) commit(scopes []int, v c5Vec) {
+	for _, s := range scopes {
+		w.cur.delta[s] = w.cur.delta[s].add(v)
+	}
+}
+
+// run f as operation number len(w.log): the attempt is declared before, the outcome after
+func (w *c5Worker) op(declare func(), f func()) {
+	w.begin()
+	declare()
+	p := int64(len(w.log))
+	w.log = append(w.log, w.cur)
+	w.seq.Store(2*p + 1)
+	f()
+	w.seq.Store(2*p + 2)
+}
+
+type c5Sample struct {
+	scope  int
+	obs    c5Vec
+	c1, c2 []int64
+}
+
+func c5Fits(l BaseLimit, v c5Vec) bool {
+	for _, x := range v {
+		if x < 0 {
+			return false
+		}
+	}
+	return v[0] <= l.Memory && v[1] <= int64(l.StreamsInbound) && v[2] <= int64(l.StreamsOutbound) && v[1]+v[2] <= int64(l.Streams) &&
+		v[3] <= int64(l.ConnsInbound) && v[4] <= int64(l.ConnsOutbound) && v[3]+v[4] <= int64(l.Conns) && v[5] <= int64(l.FD)
+}
+
+func c03Sampled(t testing.TB, out *verifh.Out, rd *verifh.Rand, workers, steps int) {
+	cfg := c03BaseCfg()
+	// tight enough that every kind of scope refuses now and then, so that the undo of a charged
+	// prefix and the rollbacks of the re-parenting steps run while other goroutines charge
+	cfg.lims[0].Conns, cfg.lims[0].Memory, cfg.lims[0].Streams = 8+rd.Intn(8), int64(3000+rd.Intn(3000)), 10+rd.Intn(10)
+	cfg.lims[0].FD = 4 + rd.Intn(6)
+	cfg.lims[1].Conns, cfg.lims[1].Streams, cfg.lims[1].Memory = 3+rd.Intn(3), 4+rd.Intn(3), int64(1500+rd.Intn(1500))
+	cfg.lims[2].Conns, cfg.lims[2].Memory = 3+rd.Intn(4), int64(1500+rd.Intn(1500))
+	cfg.lims[3].Conns = 2 + rd.Intn(3)
+	cfg.lims[8].Streams, cfg.lims[8].Conns, cfg.lims[8].Memory = 3+rd.Intn(4), 2+rd.Intn(3), int64(1000+rd.Intn(1500))
+	cfg.lims[6].Streams, cfg.lims[6].Memory = 4+rd.Intn(4), int64(1000+rd.Intn(1000))
+	cfg.lims[7].Streams = 2 + rd.Intn(2)
+	cfg.lims[4].Streams, cfg.lims[4].Memory = 3+rd.Intn(3), int64(800+rd.Intn(800))
+	cfg.lims[5].Streams = 1 + rd.Intn(2)
+	cfg.allow = []c03Allow{
+		{p: c03Prefix{w: [4]uint32{10<<24 | 9<<16}, len: 16}, peer: -1},
+		{p: c03Prefix{w: [4]uint32{10<<24 | 8<<16}, len: 16}, peer: 0},
+	}
+	rm := cfg.managerWith(t, c5Limiter{cfg.limiter()})
+	defer rm.Close()
+	table := c5Scopes(rm)
+	ws := make([]*c5Worker, workers)
+	for i := range ws {
+		ws[i] = &c5Worker{}
+	}
+	var nextID atomic.Int64
+	nextID.Store(1000)
+	var wg sync.WaitGroup
+	var stop atomic.Bool
+	var samples []c5Sample
+	var swg sync.WaitGroup
+	swg.Add(1)
+	go func() {
+		defer swg.Done()
+		for i := 0; !stop.Load() && len(samples) < 150000; i++ {
+			s := i % len(table)
+			sm := c5Sample{scope: s, c1: make([]int64, workers), c2: make([]int64, workers)}
+			for w := range ws {
+				sm.c1[w] = ws[w].seq.Load()
+			}
+			sm.obs = c5Stat(table[s].read())
+			for w := range ws {
+				sm.c2[w] = ws[w].seq.Load()
+			}
+			samples = append(samples, sm)
+			runtime.Gosched()
+		}
+	}()
+	var cov [16]atomic.Int64
+	for wi := 0; wi < workers; wi++ {
+		wg.Add(1)
+		go func(wi int, rd *verifh.Rand) {
+			defer wg.Done()
+			w := ws[wi]
+			pick := func(f func(h *c5Holder) bool) *c5Holder {
+				var c []*c5Holder
+				for _, h := range w.holders {
+					if f(h) {
+						c = append(c, h)
+					}
+				}
+				if len(c) == 0 {
+					return nil
+				}
+				return c[rd.Intn(len(c))]
+			}
+			drop := func(h *c5Holder) {
+				for i, x := range w.holders {
+					if x == h {
+						w.holders = append(w.holders[:i], w.holders[i+1:]...)
+						return
+					}
+				}
+			}
+			for s := 0; s < steps; s++ {
+				switch rd.Intn(14) {
+				case 0, 1: // OpenConnection
+					net := rd.Intn(3)
+					ep := c03Ep{hasIP: true, w: [4]uint32{10<<24 | uint32([]int{2, 9, 8}[net])<<16 | uint32(wi)<<8 | uint32(1+rd.Intn(200))}}
+					dir, usefd := network.DirInbound, rd.Bool()
+					if rd.Bool() {
+						dir = network.DirOutbound
+					}
+					d := c5Vec{0, 0, 0, b2i(dir == network.DirInbound), b2i(dir == network.DirOutbound), b2i(usefd)}
+					w.op(func() {
+						w.attempt([]int{1, 0}, d)
+						if net != 0 {
+							w.attempt([]int{3, 2}, d)
+						}
+					}, func() {
+						c, err := rm.OpenConnection(dir, usefd, ep.multiaddr())
+						if err != nil {
+							cov[0].Add(1)
+							return
+						}
+						h := &c5Holder{id: int(nextID.Add(1)), conn: c.(*connectionScope), own: d, net: net}
+						h.allow = h.conn.isAllowlisted
+						if h.allow {
+							h.edges = []int{3, 2}
+							cov[1].Add(1)
+						} else {
+							h.edges = []int{1, 0}
+						}
+						w.commit(h.edges, d)
+						w.holders = append(w.holders, h)
+					})
+				case 2, 3: // SetPeer
+					h := pick(func(h *c5Holder) bool { return h.conn != nil && !h.hasPeer })
+					if h == nil {
+						continue
+					}
+					q := rd.Intn(c5NPeers)
+					okFor := h.net == 1 || (h.net == 2 && q == 0)
+					transfer := (h.allow && !okFor) || (!h.allow && len(h.edges) == 0)
+					w.op(func() {
+						w.attempt([]int{c5IPeer(q)}, h.own)
+						if transfer {
+							w.attempt([]int{0, 1}, h.own)
+						}
+					}, func() {
+						err := h.conn.SetPeer(c03PeerID(q))
+						old := h.edges
+						switch {
+						case err == nil && h.allow && !transfer:
+							h.edges = []int{c5IPeer(q), 2}
+						case err == nil:
+							h.edges, h.allow = []int{c5IPeer(q), 0}, false
+						case transfer:
+							// refused by system / transient: charged to nothing (the documented
+							// intermediate state); refused by the peer scope: system + transient
+							h.allow = false
+							if strings.HasPrefix(err.Error(), "peer:") {
+								h.edges = []int{0, 1}
+								cov[3].Add(1)
+							} else {
+								h.edges = nil
+								cov[4].Add(1)
+							}
+						default:
+							cov[2].Add(1)
+						}
+						if err == nil {
+							h.hasPeer, h.peer = true, q
+							if transfer {
+								cov[5].Add(1)
+							}
+						}
+						w.commit(old, h.own.neg())
+						w.commit(h.edges, h.own)
+					})
+				case 4, 5: // OpenStream
+					q := rd.Intn(c5NPeers)
+					dir := network.DirInbound
+					if rd.Bool() {
+						dir = network.DirOutbound
+					}
+					d := c5Vec{0, b2i(dir == network.DirInbound), b2i(dir == network.DirOutbound), 0, 0, 0}
+					e := []int{c5IPeer(q), 1, 0}
+					w.op(func() { w.attempt(e, d) }, func() {
+						st, err := rm.OpenStream(c03PeerID(q), dir)
+						if err != nil {
+							cov[6].Add(1)
+							return
+						}
+						h := &c5Holder{id: int(nextID.Add(1)), strm: st.(*streamScope), own: d, edges: e, hasPeer: true, peer: q}
+						w.commit(e, d)
+						w.holders = append(w.holders, h)
+					})
+				case 6: // SetProtocol
+					h := pick(func(h *c5Holder) bool { return h.strm != nil && !h.hasProto })
+					if h == nil {
+						continue
+					}
+					p := rd.Intn(c5NProtos)
+					w.op(func() { w.attempt([]int{c5IProto(p), c5IPP(p, h.peer)}, h.own) }, func() {
+						if err := h.strm.SetProtocol(c03Proto(p)); err != nil {
+							cov[7].Add(1)
+							return
+						}
+						old := h.edges
+						h.hasProto, h.proto = true, p
+						h.edges = []int{c5IPeer(h.peer), c5IPP(p, h.peer), c5IProto(p), 0}
+						w.commit(old, h.own.neg())
+						w.commit(h.edges, h.own)
+					})
+				case 7: // SetService
+					h := pick(func(h *c5Holder) bool { return h.strm != nil && h.hasProto && !h.hasSvc })
+					if h == nil {
+						continue
+					}
+					w.op(func() { w.attempt([]int{c5ISvc(), c5ISP(h.peer)}, h.own) }, func() {
+						if err := h.strm.SetService(c03Svc(0)); err != nil {
+							cov[8].Add(1)
+							return
+						}
+						old := h.edges
+						h.hasSvc = true
+						h.edges = []int{c5IPeer(h.peer), c5IPP(h.proto, h.peer), c5ISP(h.peer), c5IProto(h.proto), c5ISvc(), 0}
+						w.commit(old, h.own.neg())
+						w.commit(h.edges, h.own)
+					})
+				case 8, 9: // ReserveMemory on the holder or on one of its spans
+					h := pick(func(h *c5Holder) bool { return true })
+					if h == nil {
+						continue
+					}
+					n := 1 + rd.Intn(600)
+					prio := uint8(rd.Intn(256))
+					d := c5Vec{int64(n)}
+					si := -1
+					if len(h.spans) > 0 && rd.Bool() {
+						si = rd.Intn(len(h.spans))
+					}
+					w.op(func() { w.attempt(h.edges, d) }, func() {
+						var err error
+						if si >= 0 {
+							err = h.spans[si].sp.ReserveMemory(n, prio)
+						} else {
+							err = h.scope().ReserveMemory(n, prio)
+						}
+						if err != nil {
+							cov[9].Add(1)
+							return
+						}
+						if si >= 0 {
+							h.spans[si].mem += int64(n)
+						}
+						h.own[0] += int64(n)
+						w.commit(h.edges, d)
+					})
+				case 10: // ReleaseMemory (at most what the holder reserved directly)
+					h := pick(func(h *c5Holder) bool {
+						m := h.own[0]
+						for _, sp := range h.spans {
+							m -= sp.mem
+						}
+						return m > 0
+					})
+					if h == nil {
+						continue
+					}
+					m := h.own[0]
+					for _, sp := range h.spans {
+						m -= sp.mem
+					}
+					n := 1 + rd.Intn(int(m))
+					w.op(func() {}, func() {
+						h.scope().ReleaseMemory(n)
+						h.own[0] -= int64(n)
+						w.commit(h.edges, c5Vec{-int64(n)})
+					})
+				case 11: // BeginSpan / span Done
+					h := pick(func(h *c5Holder) bool { return true })
+					if h == nil {
+						continue
+					}
+					if len(h.spans) < 2 && rd.Bool() {
+						w.op(func() {}, func() {
+							if sp, err := h.scope().BeginSpan(); err == nil {
+								h.spans = append(h.spans, c5Span{sp: sp})
+								cov[10].Add(1)
+							}
+						})
+					} else if len(h.spans) > 0 {
+						i := rd.Intn(len(h.spans))
+						w.op(func() {}, func() {
+							h.spans[i].sp.Done()
+							h.own[0] -= h.spans[i].mem
+							w.commit(h.edges, c5Vec{-h.spans[i].mem})
+							h.spans = append(h.spans[:i], h.spans[i+1:]...)
+						})
+					}
+				default: // Done
+					h := pick(func(h *c5Holder) bool { return true })
+					if h == nil {
+						continue
+					}
+					w.op(func() {}, func() {
+						if h.conn != nil {
+							h.conn.Done()
+						} else {
+							h.strm.Done()
+						}
+						w.commit(h.edges, h.own.neg())
+						drop(h)
+					})
+				}
+			}
+		}(wi, rd.Fork())
+	}
+	wg.Wait()
+	stop.Store(true)
+	swg.Wait()
+
+	// committed charges of every worker before each of its operations: S[w][p][scope]
+	ns := len(table)
+	S := make([][][]c5Vec, workers)
+	for wi, w := range ws {
+		S[wi] = make([][]c5Vec, len(w.log)+1)
+		S[wi][0] = make([]c5Vec, ns)
+		for p, ev := range w.log {
+			nx := append([]c5Vec(nil), S[wi][p]...)
+			for s, d := range ev.delta {
+				nx[s] = nx[s].add(d)
+			}
+			S[wi][p+1] = nx
+		}
+	}
+	bounds := func(sm c5Sample) (lo, hi []c5Vec, mid bool) {
+		for wi, w := range ws {
+			a, b := int(sm.c1[wi]/2), int((sm.c2[wi]+1)/2)
+			if sm.c1[wi]%2 == 1 || sm.c1[wi] != sm.c2[wi] {
+				mid = true
+			}
+			l, h := S[wi][a][sm.scope], S[wi][a][sm.scope]
+			for p := a; p <= b; p++ {
+				l, h = c5Min(l, S[wi][p][sm.scope]), c5Max(h, S[wi][p][sm.scope])
+				if p < b {
+					if tv, ok := w.log[p].touch[sm.scope]; ok {
+						h = c5Max(h, S[wi][p][sm.scope].add(tv))
+					}
+				}
+			}
+			lo, hi = append(lo, l), append(hi, h)
+		}
+		return
+	}
+	// choose the samples of the case: everything that looks wrong first (the extracted monitor
+	// is the judge), then mid-flight samples, then some quiet ones
+	var bad, midfl, quiet []int
+	for i, sm := range samples {
+		lo, hi, mid := bounds(sm)
+		var sl, sh c5Vec
+		for wi := range lo {
+			sl, sh = sl.add(lo[wi]), sh.add(hi[wi])
+		}
+		ok := c5Fits(cfg.lims[table[sm.scope].lim], sm.obs)
+		for j := range sl {
+			if sm.obs[j] < sl[j] || sm.obs[j] > sh[j] {
+				ok = false
+			}
+		}
+		switch {
+		case !ok:
+			bad = append(bad, i)
+		case mid:
+			midfl = append(midfl, i)
+		default:
+			quiet = append(quiet, i)
+		}
+	}
+	thin := func(l []int, n int) []int {
+		if len(l) <= n {
+			return l
+		}
+		var r []int
+		for i := 0; i < n; i++ {
+			r = append(r, l[i*len(l)/n])
+		}
+		return r
+	}
+	chosen := append(append(thin(bad, 10), thin(midfl, 120)...), thin(quiet, 30)...)
+	sort.Ints(chosen)
+	line := []int64{5, int64(len(chosen))}
+	for _, i := range chosen {
+		sm := samples[i]
+		sc := table[sm.scope]
+		line = append(line, int64(sc.k), int64(sc.a))
+		line = append(line, c03LimWire(cfg.lims[sc.lim])...)
+		line = append(line, sm.obs[:]...)
+		lo, hi, _ := bounds(sm)
+		line = append(line, int64(workers))
+		for wi := range lo {
+			line = append(line, lo[wi][:]...)
+			line = append(line, hi[wi][:]...)
+		}
+	}
+	// quiescence: every live holder with what it holds, and the Stat() of every shared scope
+	// and of every holder's own scope
+	nh := 0
+	for _, w := range ws {
+		nh += len(w.holders)
+	}
+	line = append(line, int64(nh))
+	for _, w := range ws {
+		for _, h := range w.holders {
+			line = append(line, int64(h.id))
+			line = append(line, h.own[:]...)
+			line = append(line, int64(len(h.edges)))
+			for _, e := range h.edges {
+				line = append(line, int64(e))
+			}
+		}
+	}
+	line = append(line, int64(ns+nh))
+	for s, sc := range table {
+		line = append(line, int64(s), int64(sc.k), int64(sc.a))
+		st := c5Stat(sc.read())
+		line = append(line, st[:]...)
+	}
+	for _, w := range ws {
+		for _, h := range w.holders {
+			k := int64(9)
+			if h.strm != nil {
+				k = 10
+			}
+			st := c5Stat(h.scope().Stat())
+			line = append(line, int64(h.id), k, int64(h.id))
+			line = append(line, st[:]...)
+		}
+	}
+	out.Case(line)
+	for _, w := range ws {
+		for _, h := range w.holders {
+			for _, sp := range h.spans {
+				sp.sp.Done()
+			}
+			if h.conn != nil {
+				h.conn.Done()
+			} else {
+				h.strm.Done()
+			}
+		}
+	}
+	out.Cover("sampled.runs")
+	out.CoverN("sampled.samples_taken", int64(len(samples)))
+	out.CoverN("sampled.samples_midflight", int64(len(midfl)))
+	out.CoverN("sampled.samples_judged", int64(len(chosen)))
+	out.CoverN("sampled.samples_prefilter_bad", int64(len(bad)))
+	nops := 0
+	for _, w := range ws {
+		nops += len(w.log)
+	}
+	out.CoverN("sampled.operations", int64(nops))
+	names := []string{"openconn_refused", "openconn_allowlisted", "setpeer_refused", "setpeer_transfer_refused_by_peer", "setpeer_transfer_refused_by_system_or_transient",
+		"setpeer_transfer_ok", "openstream_refused", "setprotocol_refused", "setservice_refused", "reservememory_refused", "spans"}
+	for i, n := range names {
+		out.CoverN("sampled."+n, cov[i].Load())
+	}
+}
+
 // ---- entry points ----------------------------------------------------------------------------
 
 func TestVerifNothing(t *testing.T) {}
@@ -1907,6 +2580,13 @@ func TestVerifC03(t *testing.T) {
 	}
 	for i := 0; i < nconc; i++ {
 		c03Concurrent(t, out, rd.Fork(), 8, 400)
+	}
+	nsamp, ssteps := 10, 200
+	if verifh.Tier() == "thorough" {
+		nsamp, ssteps = 80, 400
+	}
+	for i := 0; i < nsamp; i++ {
+		c03Sampled(t, out, rd.Fork(), 8, ssteps)
 	}
 	// the address plan really is what the model assumes
 	ep := c03Ep{hasIP: true, w: [4]uint32{10<<24 | 1<<16 | 1}}
@@ -2042,6 +2722,14 @@ func TestVerifC03Replay(t *testing.T) {
 	}
 	defer out.Close()
 	toks := verifh.ReplayCase()
+	if len(toks) > 0 && toks[0] == 5 {
+		// a concurrent run is not replayable step by step: run fresh ones
+		rd := verifh.NewRand(verifh.Seed())
+		for i := 0; i < 20; i++ {
+			c03Sampled(t, out, rd.Fork(), 8, 200)
+		}
+		return
+	}
 	if len(toks) > 0 && toks[0] == 4 {
 		// a concurrent run is not replayable step by step: run fresh ones
 		rd := verifh.NewRand(verifh.Seed())
